@@ -52,3 +52,11 @@ int c10_cursor_ok(const std::vector<int> &kinds, const std::vector<int> &side, b
   return sum;
 }
 }  // namespace verif_control
+
+// ---- ONEROUND control (C12): a second rounding rule on a "fast path" ---------------------------------
+#include <cmath>
+namespace verif_control {
+void c12_round_bad(const float *src, float inv_delta, int *dst, int n) {
+  for (int i = 0; i < n; ++i) dst[i] = static_cast<int>(std::lrintf(src[i] * inv_delta));
+}
+}  // namespace verif_control
